@@ -57,6 +57,7 @@ list_t              *snoopy_tsrm_threadRepo = &snoopy_tsrm_threadRepo_data;
  * Non-exported function prototypes
  */
 void                        snoopy_tsrm_init                      ();
+static void                 snoopy_tsrm_atforkChild               ();
 int                         snoopy_tsrm_doesThreadRepoEntryExist  (snoopy_tsrm_threadId_t threadId, int mutex_already_locked);
 snoopy_tsrm_threadId_t      snoopy_tsrm_getCurrentThreadId        ();
 listNode_t*                 snoopy_tsrm_getCurrentThreadRepoEntry ();
@@ -165,6 +166,37 @@ void snoopy_tsrm_init ()
     pthread_mutexattr_init   (&snoopy_tsrm_threadRepo_mutexAttr);
     pthread_mutexattr_settype(&snoopy_tsrm_threadRepo_mutexAttr, PTHREAD_MUTEX_RECURSIVE);
     pthread_mutex_init       (&snoopy_tsrm_threadRepo_mutex, &snoopy_tsrm_threadRepo_mutexAttr);
+
+    // Make sure a fork()-ed child does not inherit a locked mutex or other threads' entries
+    pthread_atfork(NULL, NULL, &snoopy_tsrm_atforkChild);
+}
+
+
+
+/*
+ * snoopy_tsrm_atforkChild
+ *
+ * Description:
+ *     Runs in the child process right after fork(). Only the thread that called
+ *     fork() exists there. Another thread of the parent may have been in the
+ *     middle of a Snoopy call at that instant: the mutex would stay locked
+ *     forever (its owner does not exist in the child) and the thread repository
+ *     may contain entries of threads that are gone, possibly half-updated.
+ *     Start over with a fresh mutex and an empty repository (the stale entries
+ *     are abandoned on purpose, they cannot be walked safely).
+ *
+ * Params:
+ *     (none)
+ *
+ * Return:
+ *     void
+ */
+static void snoopy_tsrm_atforkChild ()
+{
+    pthread_mutex_init(&snoopy_tsrm_threadRepo_mutex, &snoopy_tsrm_threadRepo_mutexAttr);
+    snoopy_tsrm_threadRepo_data.first = NULL;
+    snoopy_tsrm_threadRepo_data.last  = NULL;
+    snoopy_tsrm_threadRepo_data.count = 0;
 }
 
 
